@@ -20,7 +20,7 @@ def main() -> int:
     bad = []
     n = 0
     for line in open(log):
-        m = re.match(r"(\S+)\s+(break|preserve)\s+(.*)", line)
+        m = re.match(r"(\S+)\s+(break|preserve|unseen|undecided)\s+(.*)", line)
         if not m or m.group(1) not in cat:
             continue
         n += 1
@@ -30,6 +30,12 @@ def main() -> int:
         caught = c.group(1) if c else ""
         if kind == "preserve":
             if "silent" not in rest:
+                bad.append(line.strip())
+        elif kind == "unseen":
+            if "FALSE-ALARM" in rest:
+                bad.append(line.strip())
+        elif kind == "undecided":
+            if "PASSED=" in rest:
                 bad.append(line.strip())
         else:
             for p in props:
